@@ -377,6 +377,13 @@ func (lx *lexer) parseTypeStr() string {
 		panic(fmt.Errorf("%s:%d: expected type, found %q", lx.file, t.line, t.s))
 	}
 	sb.WriteString(t.s)
+	if t.s == "map" && lx.isOp("[") {
+		lx.next()
+		k := lx.parseTypeStr()
+		lx.expect("]")
+		v := lx.parseTypeStr()
+		return sb.String() + "[" + k + "]" + v
+	}
 	if lx.isOp(".") {
 		lx.next()
 		sb.WriteString(".")
